@@ -855,6 +855,32 @@ def g_slow_grid(F, rng, tier):
     return out
 
 
+def g_long_pos_ties(F, rng, tier):
+    """G33: exact ties with MORE than 19 digits and a positive exponent, in their shortest spelling: digits = k 2^j
+    (20..45 digits), exponent q = 1 .. the last exponent for which a tie exists (23 / 10), with 5^q k = 2m+1 a (p+1)-bit odd
+    number, both parities of m.  For q at the top of the window k = 1: the digits are a pure power of two.  With a far-out
+    digit and with a tail of nines below."""
+    out = []
+    q = tier == "quick"
+    lo, hi = 1 << F.p, (1 << (F.p + 1)) - 1
+    for qq in range(1, F.tie_hi + 1):
+        f5 = 5 ** qq
+        kmin, kmax = -(-lo // f5), hi // f5
+        ks = {kmin | 1, (kmax - 1) | 1, rng.randrange(kmin, kmax + 1) | 1, rng.randrange(kmin, kmax + 1) | 1}
+        for k in sorted(k for k in ks if kmin <= k <= kmax):
+            for nd in ((20, 21, 30) if q else (20, 21, 22, 25, 30, 45)):
+                if F.name != "f64" and nd > 25:
+                    continue
+                j = 0
+                while (k << j) < 10 ** (nd - 1):
+                    j += 1
+                ds = str(k << j)
+                out.append(mk(F.name, ds, "", qq, "G33:long-pos-tie"))
+                out.append(mk(F.name, ds, "0" * 7 + "1", qq, "G33:long-pos-tie-far1"))
+                out.append(mk(F.name, str((k << j) - 1), "9" * 12, qq, "G33:long-pos-tie-nines"))
+    return out
+
+
 def g_limb_crossers(F, rng, tier):
     """G24: halfway points between SUBNORMALS m and m+1 for which an intermediate of the stepped power (2m+1) x 5^(135 i)
     lands just above a limb boundary 2^(64 j) (its top limb is a small number): there the partial products of the long
@@ -1754,6 +1780,35 @@ def g_bigint(rng, tier):
         for x in ([[1]] if q else [[1], [3], [M64], [1, 1]]):
             add("pow5", x, None, e)
         add("bigint_pow5", [7], None, e)
+    # products with an EXACTLY ZERO interior limb: x = ceil(H 2^(64 t) / m) gives x m = H 2^(64 t) + r with r < m, so the
+    # limbs between the length of m and limb t are zero - a carry that is an exact non-zero multiple of 2^64, a partial
+    # sum that is exactly zero: a 2^-64 coincidence for random operands
+    def limbs_of(v):
+        o = []
+        while v:
+            o.append(v & M64)
+            v >>= 64
+        return o
+
+    for e in ([13, 27, 28, 40, 54, 55, 56, 81, 82, 110, 135, 136, 162, 190] if q else list(range(1, 140, 3)) + [162, 163, 190, 191, 270, 271, 300]):
+        m5 = 5 ** e
+        lm = (m5.bit_length() + 63) // 64
+        for t in (lm, lm + 1, lm + 2):
+            H = rng.getrandbits(rng.choice([1, 20, 60, 64])) | 1
+            x = -(-(H << (64 * t)) // m5)
+            if x.bit_length() + m5.bit_length() <= 62 * 64:
+                add("pow5", limbs_of(x), None, e, tag="pow5:zero-interior")
+    for m in [5 ** 27, 10 ** 19, M64, (1 << 63) + 1, 3, rng.getrandbits(64) | 1]:
+        for t in (1, 2, 3, 5):
+            H = rng.getrandbits(rng.choice([1, 33, 64])) | 1
+            add("small_mul", limbs_of(-(-(H << (64 * t)) // m)), [m], tag="small_mul:zero-interior")
+    for ny in (2, 3, 5):
+        yv = rng.getrandbits(64 * ny) | 1 | (1 << (64 * ny - 1))
+        for t in (ny, ny + 1, ny + 3):
+            H = rng.getrandbits(rng.choice([1, 64, 100])) | 1
+            xv = limbs_of(-(-(H << (64 * t)) // yv))
+            add("long_mul", xv, limbs_of(yv), tag="long_mul:zero-interior")
+            add("large_mul", xv, limbs_of(yv), tag="large_mul:zero-interior")
     # pow on SINGLE-LIMB operands of every bit length (1..64) and every small value: a native pre-multiplication that
     # "fits" only by an estimate (bits per power of five) is wrong for one bit length and a few exponents
     small_x = list(range(1, 71 if q else 300)) + [v for k in range(7, 65, 1 if not q else 3) for v in ((1 << k) - 1, 1 << (k - 1), (1 << (k - 1)) + 1) if v < (1 << 64)]
